@@ -3,6 +3,8 @@ From Coq Require Import String List.
 From TS Require Import Model.Str Model.Outcome Model.Unicode Model.Types Model.Parse Model.Lang.Common Model.Lang.Decl
                        Model.Lang.Swift Model.Lang.Scala Model.Lang.Go Model.Lang.Kotlin Model.Lang.Python Spec.C12Spec Proofs.C12Obs.
 From TS Require Proofs.C12 Proofs.C12_Swift Proofs.C12_Go Proofs.C12_Kotlin Proofs.C12_Python.
+From TS Require Import Model.MultiFile.
+From TS Require Model.Writer Proofs.C12Multi Proofs.C12MultiWitness.
 Import ListNotations.
 From TS Require Props.C12.
 
@@ -102,3 +104,93 @@ Goal c12_py_known Proofs.C12.c12_py_cfg0 Proofs.C12.c12_py_default_pd = Some "C1
                     In (lit "parse_rfc3339") uses /\ ~ In (lit "parse_rfc3339") defs /\ c12_good uses defs = false.
 Proof. exact Props.C12.C12_python_default_translation_refuted. Qed.
 Print Assumptions Props.C12.C12_python_default_translation_refuted.
+Goal forall (uc : unicode) (cfg : py_config) (st : py_state) (pd : parsed) (text : str) (st' : py_state),
+    py_generate_multi uc cfg st pd = Ok (text, st') <->
+    exists ds, Proofs.C12Multi.py_multi_decls uc cfg st pd = Ok (ds, st') /\
+               text = py_begin_file cfg ++ py_write_all_imports st' ++ py_write_custom_translations st' ++
+                      List.concat (map py_render_decl ds).
+Proof. exact Props.C12.C12_multi_python_layout. Qed.
+Print Assumptions Props.C12.C12_multi_python_layout.
+Goal forall (uc : unicode) (cfg : py_config) (pd : parsed),
+    Proofs.C12Multi.c12_py_observe_multi uc cfg py_empty_state pd = c12_py_observe uc cfg pd.
+Proof. exact Props.C12.C12_multi_python_observe_initial. Qed.
+Print Assumptions Props.C12.C12_multi_python_observe_initial.
+Goal (forall st : py_state,
+     Proofs.C12Multi.c12_py_state_ok st = true <->
+     (py_type_variables st <> [] -> In (lit "TypeVar") (c12_py_imported st)) /\
+     (In (lit "datetime") (py_custom_types st) -> In (lit "datetime") (c12_py_imported st))) /\
+  Proofs.C12Multi.c12_py_state_ok py_empty_state = true.
+Proof. exact Props.C12.C12_multi_python_state_ok_meaning. Qed.
+Print Assumptions Props.C12.C12_multi_python_state_ok_meaning.
+Goal forall (uc : unicode) (cfg : py_config) (st0 : py_state) (pd : parsed),
+    Proofs.C12Multi.c12_py_state_ok st0 = true -> c12_py_dom cfg (items_of pd) = true ->
+    (forall uses defs, Proofs.C12Multi.c12_py_observe_multi uc cfg st0 pd = Ok (uses, defs) ->
+       c12_py_known cfg pd = None -> c12_good uses defs = true) /\
+    (forall ds st, Proofs.C12Multi.py_multi_decls uc cfg st0 pd = Ok (ds, st) -> Proofs.C12Multi.c12_py_state_ok st = true).
+Proof. exact Props.C12.C12_multi_python_file. Qed.
+Print Assumptions Props.C12.C12_multi_python_file.
+Goal forall (uc : unicode) (cfg : py_config) (st0 : py_state) (plan : list out_plan)
+         (files : list (str * Writer.gen_result)) (fin : outcome py_state),
+    Proofs.C12Multi.c12_py_state_ok st0 = true ->
+    generate_crates (Proofs.C12Multi.py_multi_gen uc cfg) st0 plan = (files, fin) ->
+    (forall i fname text,
+       nth_error files i = Some (fname, Writer.Generated text) ->
+       Forall (fun p => c12_py_dom cfg (items_of (op_data p)) = true) (firstn (S i) plan) ->
+       exists p st_i st_i' ds uses defs,
+         nth_error plan i = Some p /\ fname = op_file p /\ Proofs.C12Multi.c12_py_state_ok st_i = true /\
+         py_generate_multi uc cfg st_i (op_data p) = Ok (text, st_i') /\
+         Proofs.C12Multi.py_multi_decls uc cfg st_i (op_data p) = Ok (ds, st_i') /\
+         text = py_begin_file cfg ++ py_write_all_imports st_i' ++ py_write_custom_translations st_i' ++
+                List.concat (map py_render_decl ds) /\
+         Proofs.C12Multi.c12_py_observe_multi uc cfg st_i (op_data p) = Ok (uses, defs) /\
+         (c12_py_known cfg (op_data p) = None -> c12_good uses defs = true)) /\
+    (forall st', fin = Ok st' -> Forall (fun p => c12_py_dom cfg (items_of (op_data p)) = true) plan ->
+       Proofs.C12Multi.c12_py_state_ok st' = true).
+Proof. exact Props.C12.C12_multi_python. Qed.
+Print Assumptions Props.C12.C12_multi_python.
+Goal forall uc cfg st c im pd, Proofs.C12Multi.py_multi_gen uc cfg st c im pd = py_generate_multi uc cfg st pd.
+Proof. exact Props.C12.C12_multi_python_gen_meaning. Qed.
+Print Assumptions Props.C12.C12_multi_python_gen_meaning.
+Goal exists plan t_alpha st_fin,
+    Proofs.C12MultiWitness.y_plan Python Proofs.C12MultiWitness.ws_py_plain = Some plan /\
+    map op_crate plan = [lit "alpha"; lit "beta"] /\
+    forallb (fun p => c12_py_dom Proofs.C12MultiWitness.y_py_cfg (items_of (op_data p))) plan = true /\
+    forallb (fun p => Proofs.C12MultiWitness.y_none (c12_py_known Proofs.C12MultiWitness.y_py_cfg (op_data p))) plan = true /\
+    generate_crates (Proofs.C12Multi.py_multi_gen uc_exec Proofs.C12MultiWitness.y_py_cfg) py_empty_state plan =
+      ([(lit "alpha.py", Writer.Generated t_alpha); (lit "beta.py", Writer.Generated Proofs.C12MultiWitness.y_beta_plain_py)], Ok st_fin) /\
+    py_type_variables st_fin = [lit "T"] /\ py_custom_types st_fin = [lit "datetime"] /\
+    Proofs.C12MultiWitness.py_multi_observations Proofs.C12MultiWitness.y_py_cfg py_empty_state plan =
+      [(lit "alpha.py", Ok (Proofs.C12MultiWitness.y_py_uses_generic (lit "T"), Proofs.C12MultiWitness.y_py_defs_alpha));
+       (lit "beta.py", Ok ([lit "TypeVar"; lit "datetime"; lit "BaseModel"], Proofs.C12MultiWitness.y_py_defs_alpha))] /\
+    c12_good (Proofs.C12MultiWitness.y_py_uses_generic (lit "T")) Proofs.C12MultiWitness.y_py_defs_alpha = true /\
+    c12_good [lit "TypeVar"; lit "datetime"; lit "BaseModel"] Proofs.C12MultiWitness.y_py_defs_alpha = true.
+Proof. exact Props.C12.C12_multi_python_nonvacuous_plain. Qed.
+Print Assumptions Props.C12.C12_multi_python_nonvacuous_plain.
+Goal exists plan t_alpha t_beta st_fin,
+    Proofs.C12MultiWitness.y_plan Python Proofs.C12MultiWitness.ws_py_again = Some plan /\
+    map op_crate plan = [lit "alpha"; lit "beta"] /\
+    forallb (fun p => c12_py_dom Proofs.C12MultiWitness.y_py_cfg (items_of (op_data p))) plan = true /\
+    forallb (fun p => Proofs.C12MultiWitness.y_none (c12_py_known Proofs.C12MultiWitness.y_py_cfg (op_data p))) plan = true /\
+    generate_crates (Proofs.C12Multi.py_multi_gen uc_exec Proofs.C12MultiWitness.y_py_cfg) py_empty_state plan =
+      ([(lit "alpha.py", Writer.Generated t_alpha); (lit "beta.py", Writer.Generated t_beta)], Ok st_fin) /\
+    py_type_variables st_fin = [lit "T"; lit "U"] /\
+    Proofs.C12MultiWitness.py_multi_observations Proofs.C12MultiWitness.y_py_cfg py_empty_state plan =
+      [(lit "alpha.py", Ok (Proofs.C12MultiWitness.y_py_uses_generic (lit "T"), Proofs.C12MultiWitness.y_py_defs_alpha));
+       (lit "beta.py", Ok (Proofs.C12MultiWitness.y_py_uses_generic (lit "U"),
+                           lit "T" :: lit "U" :: tl Proofs.C12MultiWitness.y_py_defs_alpha))] /\
+    c12_good (Proofs.C12MultiWitness.y_py_uses_generic (lit "U")) (lit "T" :: lit "U" :: tl Proofs.C12MultiWitness.y_py_defs_alpha) = true.
+Proof. exact Props.C12.C12_multi_python_nonvacuous_again. Qed.
+Print Assumptions Props.C12.C12_multi_python_nonvacuous_again.
+Goal exists plan p_alpha p_beta t_alpha st1 t_beta st2 uses defs,
+    Proofs.C12MultiWitness.y_plan Python Proofs.C12MultiWitness.ws_py_plain = Some plan /\ plan = [p_alpha; p_beta] /\
+    py_generate_multi uc_exec Proofs.C12MultiWitness.y_py_cfg py_empty_state (op_data p_alpha) = Ok (t_alpha, st1) /\
+    Proofs.C12Multi.c12_py_state_ok st1 = true /\
+    Proofs.C12Multi.c12_py_state_ok (Proofs.C12MultiWitness.py_drain st1) = false /\
+    generate_crates (Proofs.C12MultiWitness.py_drained_gen Proofs.C12MultiWitness.y_py_cfg) py_empty_state plan =
+      ([(lit "alpha.py", Writer.Generated t_alpha); (lit "beta.py", Writer.Generated t_beta)], Ok st2) /\
+    t_beta <> Proofs.C12MultiWitness.y_beta_plain_py /\
+    Proofs.C12Multi.c12_py_observe_multi uc_exec Proofs.C12MultiWitness.y_py_cfg (Proofs.C12MultiWitness.py_drain st1) (op_data p_beta) = Ok (uses, defs) /\
+    In (lit "TypeVar") uses /\ ~ In (lit "TypeVar") defs /\ In (lit "datetime") uses /\ ~ In (lit "datetime") defs /\
+    c12_good uses defs = false.
+Proof. exact Props.C12.C12_multi_python_drain_regression. Qed.
+Print Assumptions Props.C12.C12_multi_python_drain_regression.
